@@ -381,7 +381,7 @@ func realMain() {
 			return nil
 		}
 		warmFarDeadline(root)
-		for try := 0; try < 3; try++ {
+		for try := 0; try < 6; try++ {
 			if v := runGrid(root, *c.Grid); v != "" {
 				key := "grid=" + c.Grid.String()
 				if gclass(v) == "hang-with-ttyin" {
